@@ -38,7 +38,7 @@ fn arg_num<T: std::str::FromStr>(args: &[String], name: &str, default: T) -> T {
 
 fn on_fresh_thread<R: Send + 'static>(f: impl FnOnce() -> R + Send + 'static) -> R {
     std::thread::Builder::new()
-        .stack_size(256 << 20)
+        .stack_size(1 << 20)
         .spawn(f)
         .expect("spawn")
         .join()
@@ -74,6 +74,7 @@ fn start_run<P: Pad>(reset: &Value) {
         let _ = rust_cc::config::config(|c| c.set_auto_collect(auto));
     }
     world::install::<P>(Box::new(world::World::<P>::new(ns, np, nw)));
+    rec::REAL_SZ.with(|c| c.set(node_box_size::<P>() as u64));
     rec::emit(reset.clone());
 }
 
@@ -255,6 +256,10 @@ fn main_replay(args: &[String]) {
     let inp = arg(args, "--in").expect("--in");
     let out = arg(args, "--out").expect("--out");
     let report = arg(args, "--report");
+    // only drifted behaviours and every `sample`-th lock-step-equal one are written out for TLC validation
+    let sample: u64 = arg_num(args, "--sample", 1);
+    let seed: u64 = arg_num(args, "--seed", 0);
+    let mut written = 0u64;
     let rdr = std::io::BufReader::new(std::fs::File::open(&inp).expect("open in"));
     let mut f = BufWriter::new(std::fs::File::create(&out).expect("create out"));
     let (mut n, mut drifted, mut skipped, mut events) = (0u64, 0u64, 0u64, 0usize);
@@ -296,8 +301,11 @@ fn main_replay(args: &[String]) {
                 drift_samples.push(json!({"behaviour": lineno + 1, "pos": pos, "what": what, "consumed": r.consumed, "total": r.total}));
             }
         }
-        for l in r.lines {
-            writeln!(f, "{}", l).unwrap();
+        if r.drift.is_some() || (lineno as u64 + seed) % sample == 0 {
+            written += 1;
+            for l in r.lines {
+                writeln!(f, "{}", l).unwrap();
+            }
         }
         if alloc::overflowed() {
             eprintln!("harness: free log overflow");
@@ -305,7 +313,7 @@ fn main_replay(args: &[String]) {
         }
     }
     f.flush().unwrap();
-    let rep = json!({"mode": "replay", "behaviours": n, "skipped": skipped, "drifted": drifted, "events": events, "drift_samples": drift_samples, "build": build_flags()});
+    let rep = json!({"mode": "replay", "behaviours": n, "written": written, "skipped": skipped, "drifted": drifted, "events": events, "drift_samples": drift_samples, "build": build_flags()});
     if let Some(r) = report {
         std::fs::write(r, rep.to_string()).unwrap();
     }
